@@ -296,6 +296,8 @@ PROPS["C25"] = dict(
 
 # ----------------------------------------------------------------------- C11
 _PV = "core/src/value/primitive.rs"
+_EXT = ["u16", "i16", "i32", "u32", "f32", "f64"]
+_EXT_TARGETS = ["u8", "u16", "i16", "u32", "i32", "u64", "i64", "f32", "f64", "empty", "tags"]
 _SRC = ["u8", "u16", "i16", "u32", "i32", "u64", "i64"]
 _DST = ["u8", "i8", "u16", "i16", "u32", "i32", "u64", "i64"]
 _ALL_TO_INT = ["c11::c11_to_int_%s_%s" % (s, d) for s in _SRC for d in _DST]
@@ -303,6 +305,10 @@ _QUICK_TO_INT = ["c11::c11_to_int_%s_%s" % t for t in
                  [("u16", "u8"), ("i16", "u16"), ("u32", "i32"), ("i32", "u32"), ("u64", "i64"), ("i64", "u64"),
                   ("u8", "i8"), ("u64", "u8"), ("i64", "i8"), ("u32", "u16"), ("i32", "i16"), ("i16", "i8"),
                   ("u16", "i16"), ("i64", "i32"), ("u64", "u32"), ("u8", "u64")]]
+_ALL_MULTI_N1 = ["c11::c11_multi_int_%s_%s_n1" % (s, d) for s in _SRC for d in _DST]
+_QUICK_MULTI_N1 = ["c11::c11_multi_int_%s_%s_n1" % t for t in
+                   [("u8", "u8"), ("u8", "i8"), ("u16", "u16"), ("u16", "i64"), ("i16", "i16"), ("i16", "u64"), ("u32", "u32"), ("u32", "i64"),
+                    ("i32", "i32"), ("i32", "u64"), ("u64", "u64"), ("u64", "i64"), ("i64", "i64"), ("i64", "u64")]]
 PROPS["C11"] = dict(
     level="proof",
     units=[
@@ -323,15 +329,37 @@ PROPS["C11"] = dict(
           fns=[(_PV, "to_multi_int", r"impl\s+PrimitiveValue"), (_PV, "to_multi_float32", r"impl\s+PrimitiveValue"),
                (_PV, "to_multi_float64", r"impl\s+PrimitiveValue")],
           complete=False, bound="0, 1 or 2 items (concrete lengths), contents symbolic; to_multi_int with >= 2 items exceeds the CBMC budget"),
-        K("C11.modify", "ext",
-          ["c11::c11_truncate_u16_n3", "c11::c11_extend_u16_onto_u16", "c11::c11_extend_u16_onto_u8", "c11::c11_extend_u16_onto_empty"],
-          "truncate keeps the first min(n, limit) items; extend_u16 appends the numbers cast to the value's type",
-          fns=[(_PV, "truncate", r"impl\s+PrimitiveValue"), (_PV, "extend_u16", r"impl\s+PrimitiveValue")],
-          complete=False, bound="values of 1-3 items, 1 appended number; only the U16/U8/Empty targets of extend_u16"),
+        K("C11.multi_int_n1", "ext", _QUICK_MULTI_N1,
+          "to_multi_int::<T>() on a one-item value of every binary integer variant, any stored number, to its own type and to the widest type of "
+          "the opposite signedness: Ok([v]) <=> representable, v exact; Err otherwise (never wrapped)",
+          complete=False, bound="1 item (concrete length), contents symbolic", timeout=600),
+        K("C11.multi_int_n1_all", "ext", [h for h in _ALL_MULTI_N1 if h not in _QUICK_MULTI_N1],
+          "the remaining source x target combinations (7 x 8 in total)", tier="thorough",
+          complete=False, bound="1 item (concrete length), contents symbolic", timeout=600),
+        K("C11.extend", "ext",
+          ["c11::c11_extend_u16_onto_u16", "c11::c11_extend_u16_onto_u8", "c11::c11_extend_u16_onto_empty"] +
+          ["c11b::c11_ext_%s_on_%s" % (f, t) for f in _EXT for t in _EXT_TARGETS],
+          "extend_u16 / extend_i16 / extend_i32 / extend_u32 / extend_f32 / extend_f64 on every numeric variant (U8 .. F64), on Empty and "
+          "on Tags: Ok, the value keeps its type, the old items are untouched and exactly the given numbers are appended, cast to the "
+          "value's type (the documented conversion); Empty takes the numbers' own type; Tags => Err and the value is unchanged",
+          fns=[(_PV, "extend_" + f, r"impl\s+PrimitiveValue") for f in _EXT],
+          complete=False, bound="1 stored item + 1 appended number (2 onto Empty), concrete lengths, contents symbolic; textual targets (Str/Strs: to_string) not included"),
+        K("C11.truncate", "ext",
+          ["c11::c11_truncate_u16_n3"] + ["c11b::c11_truncate_" + t for t in ["u8", "i16", "u32", "i32", "u64", "i64", "f32", "f64", "tags", "empty"]],
+          "truncate(limit), any limit, on every numeric variant, Tags and Empty: keeps the first min(n, limit) items unchanged, keeps the type",
+          fns=[(_PV, "truncate", r"impl\s+PrimitiveValue")],
+          complete=False, bound="values of 3 items (Tags: 2), concrete length, contents and limit symbolic; Strs/Date/Time/DateTime variants not included"),
+        K("C11.to_float", "ext",
+          ["c11b::c11_float32_from_" + t for t in ["u8", "u16", "i16", "u32", "i32", "u64", "i64", "f32"]] +
+          ["c11b::c11_float64_from_" + t for t in ["u8", "u16", "i16", "u32", "i32", "u64", "i64", "f32", "f64"]],
+          "to_float32 / to_float64 on a two-item value of every binary numeric variant: Ok(first item converted); to_multi_float32 / "
+          "to_multi_float64: exactly one result per item, in order (all NaNs identified)",
+          fns=[(_PV, "to_float32", r"impl\s+PrimitiveValue"), (_PV, "to_float64", r"impl\s+PrimitiveValue")],
+          complete=False, bound="2 items (concrete length), contents symbolic; F64 -> f32 narrowing and textual sources not included"),
     ],
     assumptions=["error values are forgotten, never dropped or formatted in the harness; Backtrace capture stubbed",
                  "num_traits::NumCast is compiled and checked (not trusted)"],
-    uncovered=["textual numbers (str::parse after trimming)", "to_float32/64 single conversions", "extend_i16/_i32/_u32/_f32/_f64/_str",
+    uncovered=["textual numbers (str::parse after trimming)", "extend_str and numbers appended to textual values (to_string)", "F64 -> f32 narrowing",
                "DataElement / Value wrappers in header.rs and value/mod.rs (thin delegations)"],
 )
 
